@@ -30,6 +30,9 @@ func init() {
 		variant{Prop: "C07", Name: "utf8-three-byte-lead-marker", File: "lexer/helpers.go", Old: "0xE0 | byte(codePoint>>12),", New: "0xC0 | byte(codePoint>>12),", Rule: "R7.5", Construct: "U+0800..U+FFFF"},
 		variant{Prop: "C07", Name: "utf8-continuation-shift", File: "lexer/helpers.go", Old: "0x80 | byte((codePoint>>12)&0x3F),", New: "0x80 | byte((codePoint>>10)&0x3F),", Rule: "R7.5", Construct: "U+10000..U+10FFFF"},
 		variant{Prop: "C07", Name: "benign-utf8-exclusive-bounds", File: "lexer/helpers.go", Old: "if codePoint <= 0x7F {", New: "if codePoint < 0x80 {", More: []edit{{File: "lexer/helpers.go", Old: "} else if codePoint <= 0x7FF {", New: "} else if codePoint < 0x800 {"}, {File: "lexer/helpers.go", Old: "} else if codePoint <= 0x10FFFF {", New: "} else if codePoint < 0x110000 {"}}, Benign: true},
+		// R7.6
+		variant{Prop: "C07", Name: "raw-string-backslash-pair-not-consumed", File: "lexer/lexer.go", Old: "\t\t\tif nextChar == '\\\\' {\n", New: "\t\t\tif false && nextChar == '\\\\' {\n", Rule: "R7.6", Construct: "readRawString"},
+		variant{Prop: "C07", Name: "string-escape-steps-over-backslash-only", File: "lexer/lexer.go", Old: "\t\tif l.CurrentChar == '\\\\' {\n\t\t\tl.ReadChar() // Move to the character after backslash\n", New: "\t\tif l.CurrentChar == '\\\\' && l.PeekChar() != '\\\\' {\n\t\t\tl.ReadChar() // Move to the character after backslash\n", Rule: "R7.6", Construct: "readString"},
 		// R12.5 scanner exits
 		variant{Prop: "C12", Name: "string-scan-stops-on-lookahead", File: lx, Old: "\tfor {\n\t\tl.ReadChar()\n\t\tif l.CurrentChar == 0 {\n\t\t\tbreak\n\t\t}\n\t\t// Handle escape sequences", New: "\tfor l.PeekChar() != 0 {\n\t\tl.ReadChar()\n\t\t// Handle escape sequences", Rule: "R12.5", Construct: "end-of-input exit"},
 	)
